@@ -128,7 +128,7 @@ Section Stack.
       rewrite E. cbn [scan].
       pose proof (same_stack _ _ Sm S) as S1.
       destruct (ss_w st1 S1 w Hw) as [im [L Bd]]. unfold call. rewrite L, Bd.
-      rewrite (same_flagged _ _ w Sm), B. cbn [andb wrapper_inner_from_instance sem_fixed].
+      rewrite (same_flagged _ _ w Sm), B. cbn [andb wrapper_inner_from_instance sem_fixed pre_raise].
       set (st0 := push_trace (set_cyc st1 (w :: cyc st1)) w).
       assert (S0 : stack_state st0).
       { destruct S1 as [F W P]. constructor; [exact F | exact W | exact P]. }
